@@ -247,6 +247,16 @@ def work_obj(o, i=0):
                 r, stats, smt2 = rb, statsb, smt2b
             else:
                 r["detail"] = "refinement with more instances was undecided: " + rb.get("detail", "")
+        if r["verdict"] == "unknown" and o.kind == "frame" and not o.expect_sat and z3.is_false(z3.simplify(o.goal)):
+            # "this statement is reachable": decide reachability on the quantifier-free part of the path condition
+            from .quant import _contains_quant
+            pcq = [a for a in o.pc if not _contains_quant(a)]
+            smt2q, _st = to_smt2(pcq, o.goal, o.expect_sat, qf=False)
+            rq = decide(dict(job, smt2=smt2q, z3_ms=5000, cvc5_s=5))
+            if rq["verdict"] == "sat":
+                rq["detail"] = "reachable under the quantifier-free part of the path condition (quantified hypotheses dropped)"
+                rq["time_s"] += r["time_s"]
+                r = rq
         r["gen_s"] = gen_s
         r["qstats"] = stats
         r["size"] = len(smt2)
